@@ -252,3 +252,40 @@ func vh_C13_L2_every_gather_path() {
 	vobserve("n", uint64(len(pkts)))
 	vcover("end")
 }
+
+// C13.L3c: the same on the client side. A client in COOKIE-WAIT receives an INIT ACK whose
+// Zero Checksum Acceptable parameter has any length 4..8 and any value bytes: it sends zero
+// checksums afterwards exactly when the parameter is complete and names the DTLS method
+// (COOKIE ECHO itself always carries a correct CRC32c).
+func vh_C13_L3_learned_from_init_ack() {
+	a := vHandshakeEndpoint(vPick(2) == 1, vPick(2) == 1)
+	a.initClient()
+	_ = vWriterWake(a)
+	vassert(a.getState() == cookieWait, "INIT sent")
+	ack := &chunkInitAck{}
+	ack.initiateTag, ack.initialTSN = 1+nondetU32()%0xfffffffe, nondetU32()
+	ack.numOutboundStreams, ack.numInboundStreams = 10, 10
+	ack.advertisedReceiverWindowCredit = 1 << 16
+	setSupportedExtensions(&ack.chunkInitCommon, vPick(2) == 1)
+	l := 4 + vPick(5)
+	val := nondetBytes(l - 4)
+	zp := &vRawParam{b: append([]byte{0x80, 0x01, 0, byte(l)}, val...)}
+	ack.params = append([]param{&paramStateCookie{cookie: nondetBytes(4)}, zp}, ack.params...)
+	raw, err := (&packet{sourcePort: 5000, destinationPort: 5000, verificationTag: a.myVerificationTag, chunks: []chunk{ack}}).marshal(true)
+	vassert(err == nil, "INIT ACK marshals")
+	decodable := vDecode(raw) != nil
+	vInbound(a, raw)
+	wellFormed := l == 8 && val[0] == 0 && val[1] == 0 && val[2] == 0 && val[3] == 1
+	if !decodable {
+		vassert(l < 8, "a complete parameter never makes the INIT ACK undecodable")
+		vassert(a.getState() == cookieWait && !a.sendZeroChecksum, "an undecodable INIT ACK changes nothing")
+		vcover("end")
+		return
+	}
+	vassert(a.getState() == cookieEchoed, "the INIT ACK is accepted")
+	vassert(a.sendZeroChecksum == wellFormed, "zero checksums are sent exactly when the INIT ACK declared them acceptable with the DTLS method")
+	for _, out := range vWriterWake(a) {
+		vassert(len(out) >= 12 && binary.LittleEndian.Uint32(out[8:]) == generatePacketChecksum(out), "the COOKIE ECHO carries a correct CRC32c whatever was negotiated")
+	}
+	vcover("end")
+}
